@@ -551,6 +551,8 @@ def op_coq(o):
 
 def fstate_coq(f):
     if isinstance(f, (tuple, list)):
+        if f[0] not in ("val", "exc"):      # an outcome the model cannot produce: rendered as an impossible value
+            return "FVal (-1000000007)"
         return "F%s %s" % ({"val": "Val", "exc": "Exc"}[f[0]], coqrun.cz(f[1]))
     return {"pending": "FPending", "none": "FNone", "cancelled": "FCancelled", "ext": "FExt"}[f]
 
@@ -632,7 +634,7 @@ def alphabet(cfg, rich):
     syms += [["iter"], ["adv", 1], ["clear"], ["shutdown"]]
     if rich:
         syms += [["soon", ["pop", idents[0][0], idents[0][1]]], ["retr", idents[-1][0], idents[-1][1]],
-                 ["shutdown_soon"], ["penter", 0, None], ["pexit"]]
+                 ["new", idents[0][0], idents[0][1]], ["shutdown_soon"], ["penter", 0, None], ["pexit"]]
     return syms
 
 
@@ -820,12 +822,14 @@ def run(ctx):
             syms = alphabet(cfg, rich=rich)
             for pi, prefix in enumerate(prefixes(cfg)):
                 d = dp
-                while d > 2 and len(syms) ** d > 70000:      # keep every job below ~70k sequences
+                if not ctx.quick and not rich and (len(cfg) > 2 or any(s_["script"] for s_ in cfg)):
+                    d = dp - 1                                # the longest tails only on the plain two-cache populations
+                while d > 2 and len(syms) ** d > 40000:      # keep every job below ~40k sequences
                     d -= 1
                 for head in syms:
                     jobs.append((name, (cfg, prefix, [head], syms, d, 1)))
     total = sum(len(j[1][3]) ** (j[1][4] - 1) for j in jobs)
-    target = 9000 if ctx.quick else 45000
+    target = 8000 if ctx.quick else 30000
     keep_mod = max(1, total // target)
     jobs = [(n, a[:5] + (keep_mod,)) for n, a in jobs]
     n_enum = 0
@@ -845,10 +849,10 @@ def run(ctx):
                 meta.append((a[0], ops))
         ctx.extra["enum_wall_s"] = round(_time.time() - t_start, 1)
         # ---- stage C2: random schedules, larger populations, arbitrary delays
-        nrand = 6000 if ctx.quick else 100000
+        nrand = 5000 if ctx.quick else 40000
         per = 250
         rjobs = [("rand/%d" % i, per, i % 4 != 0, ctx.seed) for i in range(nrand // per)]
-        coq_share = 1.0 if ctx.quick else 0.25
+        coq_share = 0.8 if ctx.quick else 0.25
         for out in pool.imap(_random_worker, rjobs, chunksize=1):
             for cfg, ops, flat, obs, bad, st in out:
                 ctx.count(("rand", json.dumps(ops), json.dumps(cfg)), nontrivial=bool(st["timeouts"] or st["pops"]))
@@ -886,7 +890,7 @@ def run(ctx):
     ctx.coverage["traces_validated_against_impl"] += len(cases) - len(mism)
     ctx.extra["coq_cases"] = len(cases)
     ctx.coverage["rule"] = (
-        "exhaustive: every sequence of length %d over {add i, pop id, soon-pop, retrieve_cache, iter, advance, clear, shutdown, "
+        "exhaustive: every sequence of length %d over {add i, pop id, soon-pop, retrieve_cache, constructor, iter, advance, clear, shutdown, "
         "shutdown-as-task, passthrough enter/exit} and of length %d (+1 from the empty prefix) over {add i, pop id, iter, advance, clear, "
         "shutdown}, after each of 7 phase-setting prefixes (created / sleeping / some woken / all woken / passthrough / staggered), on %d populations of 2-4 caches "
         "(shared identities, callbacks that pop / re-add / clear), each followed by a drain; random: schedules over up to 40 caches with "
